@@ -310,3 +310,9 @@ mod tests {
         Polyline::new(points, None)
     }
 }
+
+/// Verification hook: one-lane view of the private SIMD slab test.
+#[cfg(feature = "verif")]
+pub fn verif_cast_ray(bv: &SimdAabb, ray: &SimdRay) -> (SimdBool, SimdReal) {
+    cast_ray(bv, ray)
+}
